@@ -67,6 +67,8 @@ Theorem C41_model_ok_build : forall l, check_C41 (CBuild l (build l) (IOk (map f
 Proof. exact model_ok_build. Qed.
 Theorem C41_model_ok_save : forall l, check_C41 (CSave l (save l) (save l)) = true.
 Proof. exact model_ok_save. Qed.
+Theorem C41_model_ok_iter : forall ms, check_C41 (CIter ms (iter_nodes ms)) = true.
+Proof. exact model_ok_iter. Qed.
 Theorem C41_model_ok_time : forall ymd, check_C41 (CTime ymd (fix_time ymd) (in_years ymd)) = true.
 Proof. exact model_ok_time. Qed.
 
@@ -85,6 +87,7 @@ Theorem C41_node_roundtrip : forall pr name target, (forall b, In b name -> (b <
   roundtrip_node pr name target = DOk name target.
 Proof. exact node_roundtrip. Qed.
 
+Print Assumptions C41_model_ok_iter.
 Print Assumptions C41_junesc_jesc.
 Print Assumptions C41_junesc_jesc_total.
 Print Assumptions C41_quote_is_json_safe.
